@@ -109,8 +109,8 @@ let hard_kind (fk : fkind) (k : string) =
   | "status_with_data" | "null_entities" -> false
   | "count_less" | "count_more" | "nan_data" -> true
   | _ -> loud fk (fault_of k)
-(* `_entities` items / root `data` of a wrong kind: MergeValues fails, the resolve returns an error *)
-let abort_kind (fk : fkind) (k : string) =
+(* `_entities` items / root `data` of a wrong kind: MergeValues used to fail and the resolve returned an error (repaired eb6ed70) *)
+let _abort_kind (fk : fkind) (k : string) =
   (String.length k > 3 && String.sub k 0 3 = "it_") ||
   (fk = FSingle && List.exists (fun p -> String.length k >= String.length p && String.sub k 0 (String.length p) = p) ["sh_datastr"; "sh_datanum"; "sh_dataarr"])
 
@@ -220,7 +220,7 @@ let handle (x : sexp) : (string * string) list =
       (* a root fetch answered {"data":{..}} with status 500 and no errors entry: the same cause *)
       (if List.exists (fun (f, k) -> kind_of (n_of_int f) = FSingle && List.mem k ["sh_entnull_5"; "sh_entobj_5"; "sh_entstr_5"; "sh_dataempty_5"]) r.faults
        then ["status-ignored-with-data"] else []) @
-      (if List.exists (fun (f, k) -> abort_kind (kind_of (n_of_int f)) k) r.faults then ["wrong-kind-data-aborts-response"] else []) in
+      [] in   (* wrong-kind-data-aborts-response is repaired (eb6ed70): a return of the abort is a plain valid_response VIOLATION *)
     let add i (r : run) s d =
       let fl = String.concat "," (List.map (fun (f, k) -> Printf.sprintf "%d:%s" f k) r.faults) in
       res := (s, Printf.sprintf "%s run=%d faults=[%s] causes=[%s] %s" (List.hd (String.split_on_char ' ' d)) i fl
